@@ -36,7 +36,7 @@ def load(root):
             if os.path.exists(mp):
                 meta = json.load(open(mp))
                 items.append(dict(name='seeded/' + d, props=[meta['property']] + meta.get('also', []), kind='seeded',
-                                  patch=os.path.join(sd, d, 'patch.diff'), tier=meta.get('tier', 'quick')))
+                                  patch=os.path.join(sd, d, 'patch.diff'), tier=meta.get('tier', 'quick'), judged=meta.get('judged', True)))
     return items
 
 
@@ -89,11 +89,14 @@ def run(root, names, tier, seed):
                     except Exception:
                         pass
                 caught = p.returncode == 1 and 'VIOLATION property=%s' % pid in p.stdout
-                row['checks'][pid] = dict(caught=caught, exit=p.returncode, wall_s=round(time.time() - t0, 1), signatures=sigs,
+                judged = it.get('judged', True)
+                row['checks'][pid] = dict(caught=caught, judged=judged, exit=p.returncode, wall_s=round(time.time() - t0, 1), signatures=sigs,
                                           tier=it['tier'] if tier == 'quick' else tier)
                 print('%-44s %s %s  exit=%d  %.0fs  %s' % (it['name'], pid, 'CAUGHT' if caught else 'MISSED', p.returncode,
                                                           time.time() - t0, sigs[:2]), flush=True)
-                if not caught:
+                if not caught and not judged:
+                    print('    (documented non-detection: the property as stated does not cover this change, see meta.json)')
+                elif not caught:
                     missed += 1
                     print('    stdout:', p.stdout[-600:].replace('\n', ' | '))
             results[it['name']] = row
